@@ -1036,3 +1036,40 @@ def dget_any(ex, st, d, k):
     """d[k] for a dict of dynamically typed values given by reference"""
     a = ex.term(d, 'R')
     return SV(ex.H(st, 'Dv.V')[a][ex.dict_key(k)], ANY)
+
+
+@specfunc('pairwise_distinct')
+def pairwise_distinct(ex, st, lst):
+    """no object occurs twice in the reference list"""
+    a = ex.term(lst, 'R')
+    arr = ex.H(st, 'La.R')[a]
+    n = ex.H(st, 'Ll')[a]
+    j = z3.FreshConst(IntS, 'pj')
+    k = z3.FreshConst(IntS, 'pk')
+    return SV(z3.ForAll([j, k], z3.Implies(z3.And(0 <= j, j < k, k < n), arr[j] != arr[k])), BOOL)
+
+
+@specfunc('elist_above')
+def elist_above(ex, st, el, x):
+    """every list / dict the ElementList owns (children list, the by-name and traversal index dicts and their lists) was
+    allocated after the object x (addresses are allocation-ordered): none of them is x"""
+    a = ex.term(el, 'R')
+    xt = ex.term(x, 'R')
+    lst = ex.H(st, ex.world.field_key('ElementList', 'list'))[a]
+    idx = ex.H(st, ex.world.field_key('ElementList', 'indexes'))[a]
+    tidx = ex.H(st, ex.world.field_key('ElementList', 'traversal_indexes'))[a]
+    k = z3.FreshConst(StrS, 'ak')
+    dd, dv = ex.H(st, 'Dd'), ex.H(st, 'Dv.R')
+    return SV(z3.And(lst > xt, idx > xt, tidx > xt,
+                     z3.ForAll([k], z3.Implies(dd[idx][k], dv[idx][k] > xt)),
+                     z3.ForAll([k], z3.Implies(dd[tidx][k], dv[tidx][k] > xt))), BOOL)
+
+
+@specfunc('is_new')
+def is_new(ex, st, x):
+    """x was allocated after the function under verification was entered (usable in loop invariants, where `is_fresh`
+    would mean "since the loop was entered")"""
+    pre = getattr(ex, '_verify_pre', None)
+    if pre is None:
+        raise OutOfReach('is_new outside a function verification')
+    return SV(ex.term(x, 'R') >= ex.H(pre, 'next'), BOOL)
